@@ -3,7 +3,7 @@
    the model and the property's specification predicate on the implementation's observables.
    The same runners are evaluated by the extracted OCaml driver and by vm_compute inside Coq. *)
 Require Import Base.Bytes Gen.Tables.
-Require Import Model.Util Model.Headers Model.Methods Model.Origins Model.Netip Model.Idna
+Require Import Model.Util Model.Headers Model.Methods Model.Origins Model.Netip Model.Netip6 Model.Idna
   Model.Pattern Model.Radix Model.CfgErrors Model.Config Model.Serve Model.Mw Model.Prov Model.Index.
 Require Import Spec.Origins Spec.AcrhList Spec.Wire Spec.Fetch Spec.ConfigDoc Spec.DebugSM.
 Open Scope N_scope.
@@ -114,6 +114,21 @@ Definition psl_of (tbl : list sx) (h : bytes) : bool :=
   match lookup_b h tbl with Some v => get_bool v | None => false end.
 Definition ip6_of (tbl : list sx) (h : bytes) : ipres :=
   match lookup_b h tbl with Some v => dec_ipres v | None => IPErr end.
+
+(* ---------- netip: the executable IPv6 model against the real netip.ParseAddr (C13, C06) ---------- *)
+Definition enc_ipres (r : ipres) : sx :=
+  match r with
+  | IPErr => sym "err" | IPZone => sym "zone" | IP4in6 => sym "v4in6"
+  | IPOk canon lb => SL [sym "ok"; SB canon; sbool lb]
+  end.
+
+(* impl: err | zone | v4in6 | (ok canon loopback), recorded exactly as oracleFor does *)
+Definition run_netip (x : sx) : sx :=
+  let l := get_list x in
+  let s := get_bytes (field "s" l) in
+  let impl := field "impl" l in
+  let m := enc_ipres (if first_special s =? 58 then ip6_model s else parse_addr (fun _ => IPErr) s) in
+  verdict (sx_eqb m impl) (sx_eqb m impl) m.
 
 (* ---------- C01: ParsePattern + Tree.Insert + Tree.Contains ---------- *)
 Definition enc_origin_res (r : option bool) : sx :=
@@ -570,6 +585,7 @@ Definition run_case (x : sx) : sx :=
         else if beqb fam (b "pattern") then run_pattern (SL body)
         else if beqb fam (b "prov") then run_prov (SL body)
         else if beqb fam (b "split") then run_split (SL body)
+        else if beqb fam (b "netip") then run_netip (SL body)
         else SL [sbool false; sbool false; sym "unknown-family"] in
       SL [id; r]
   | _ => SL [sym "bad-case"]
